@@ -55,7 +55,7 @@ def to_val(v, force=True, depth=0):
         if isinstance(v, tuple):
             raise Unsupported('tuple value')
         return ('VList', [to_val(x, force, depth + 1) for x in v])
-    if callable(v) and force and getattr(v, '__name__', '') == 'execute':
+    if callable(v) and force and getattr(v, '__qualname__', '').startswith('Lazy._parse.<locals>.'):
         return to_val(v(), force, depth + 1)     # Lazy
     raise Unsupported('value %r' % (type(v),))
 
@@ -325,6 +325,9 @@ def reify(c):
         own = ['subcons', '_subcons'] + (['_subconsindexes'] if t is core.LazyStruct else [])
         check_attrs(c, own)
         check_members(c)
+        if t is core.LazyStruct:
+            for sc in c.subcons:
+                no_actualsize_override(sc)
         return ({core.Struct: 'CStruct', core.Sequence: 'CSequence', core.LazyStruct: 'CLazyStruct'}[t],
                 [R(sc) for sc in c.subcons])
     if t is core.FocusedSeq:
@@ -455,11 +458,20 @@ def reify(c):
         return ('CChecksum', R(c.checksumfield), (HASHES[id(c.hashfunc)],), reify_param(c.bytesfunc))
     if t is core.Lazy:
         check_attrs(c, ['subcon'])
+        no_actualsize_override(c.subcon)
         return ('CLazy', R(c.subcon))
     if t is core.LazyArray:
         check_attrs(c, ['subcon', 'count'])
+        no_actualsize_override(c.subcon)
         return ('CLazyArray', reify_param(c.count), R(c.subcon))
     raise Unsupported('class %s' % t.__name__)
+
+
+def no_actualsize_override(sc):
+    """the model measures a lazily skipped member with Prefixed._actualsize or sizeof; an instance-level
+    _actualsize (the PrefixedArray macro) directly in a lazy position is outside it"""
+    if '_actualsize' in vars(sc):
+        raise Unsupported('instance-level _actualsize in a lazy position')
 
 
 def reify_param_callable(x):
